@@ -46,6 +46,7 @@ I = "src/iterator.rs"
 TYPES4 = [
     (B, "typegroup", (("enum", "Entry"), ("struct", "ArrayBuilder"), ("struct", "ObjectBuilder"))),
     (I, "struct", "ObjectEntryIterator"),
+    ("src/jentry.rs", "derive_ord", "JEntry"),
 ]
 
 # (file, impl type or None, trait or None, fn name, Lean name, recursive group or None); dependency order
@@ -91,6 +92,9 @@ TEXT_PROLOGUE = {"delete_by_index", "concat"}
 R3.ENUM_SIZES.setdefault("Entry", 32)
 
 RESERVED4 = set("it__ Entry ArrayBuilder ObjectBuilder ObjectEntryIterator".split())
+
+# `matches` is a token of Lean 4 (`e matches p`): a Rust local of that name is written `matches_`
+R.LEAN_KEYWORDS.add("matches")
 
 
 class FoundHole(Exception):
@@ -144,7 +148,7 @@ def lean_type4(t, world):
     if k == "tuple":
         return "(" + " × ".join(lean_type4(x, world) for x in t[1]) + ")"
     if k == "hole":
-        raise Unsupported("the element type of a container could not be inferred")
+        return "_"                      # never reaches the output: see FnTr4.translate
     return lean_type3(t, world)
 
 
@@ -325,12 +329,85 @@ def emit_typegroup4(world, file, members):
         raise
 
 
+def emit_derive_ord4(world, file, name):
+    """`#[derive(.., PartialOrd, .., Ord)] struct Name { integer fields }` -> `def Name.cmp`: the derived `Ord`
+    compares the fields in declaration order"""
+    try:
+        toks = R.tokenize(open(os.path.join(world.repo, file), encoding="utf-8").read())
+    except (OSError, Unsupported) as e:
+        raise Unsupported("cannot read %s: %s" % (file, e))
+    hits = []
+    for i, t in enumerate(toks):
+        if t.k == "id" and t.v == "struct" and toks[i + 1].k == "id" and toks[i + 1].v == name:
+            # walk back over visibility and attributes
+            j = i - 1
+            if j >= 0 and toks[j].k == "p" and toks[j].v == ")":
+                while j >= 0 and not (toks[j].k == "p" and toks[j].v == "("):
+                    j -= 1
+                j -= 1
+            if j >= 0 and toks[j].k == "id" and toks[j].v == "pub":
+                j -= 1
+            derives = []
+            while j >= 0 and toks[j].k == "p" and toks[j].v == "]":
+                k = j
+                depth = 0
+                while k >= 0:
+                    if toks[k].k == "p" and toks[k].v == "]":
+                        depth += 1
+                    elif toks[k].k == "p" and toks[k].v == "[":
+                        depth -= 1
+                        if depth == 0:
+                            break
+                    k -= 1
+                inner = toks[k + 1:j]
+                if inner and inner[0].k == "id" and inner[0].v == "derive":
+                    derives += [x.v for x in inner[1:] if x.k == "id"]
+                j = k - 1
+                if j >= 0 and toks[j].k == "p" and toks[j].v == "#":
+                    j -= 1
+            hits.append(derives)
+    if not hits:
+        return None
+    if len(hits) > 1:
+        raise Unsupported("declared more than once")
+    if "Ord" not in hits[0] or "PartialOrd" not in hits[0]:
+        raise Unsupported("`%s` does not derive PartialOrd and Ord" % name)
+    fields = world.structs.get(name)
+    if not fields or any(not is_int(ft) for _, ft in fields):
+        raise Unsupported("derived Ord of a struct whose fields are not all integers")
+    terms = ["(compare a.%s b.%s)" % (lname(f), lname(f)) for f, _ in fields]
+    body = terms[-1]
+    for t in reversed(terms[:-1]):
+        body = "(%s.then %s)" % (t, body)
+    world.derived_ord = getattr(world, "derived_ord", set()) | {name}
+    return ["def %s.cmp (a b : %s) : Ordering := %s" % (name, name, body)]
+
+
+def cmp_term4(t, world):
+    """the `Ord` of a key type as a Lean term `K → K → Ordering`"""
+    if t == STR or is_bytes(t):
+        return "Rs.cmpBytes"
+    if is_int(t):
+        return "(compare : Int → Int → Ordering)"
+    if t[0] == "named" and t[1] in getattr(world, "derived_ord", set()):
+        return "%s.cmp" % t[1]
+    if t[0] == "tuple" and len(t[1]) >= 2:
+        parts = [cmp_term4(x, world) for x in t[1]]
+        term = parts[-1]
+        for p in reversed(parts[:-1]):
+            term = "(Rs.cmpLex %s %s)" % (p, term)
+        return term
+    raise Unsupported("no `Ord` known for the key type %s" % tystr4(t))
+
+
 # ----------------------------------------------------------------------------- function translator
 
 class FnTr4(FnTr3):
     def __init__(self, world, file, impl, trait, name, it, lean, lit_choice=None, group=None, holes=None):
         self.holes = holes if holes is not None else {}
         self.hole_sites = 0
+        self.open_holes = set()
+        self.maprefs = {}               # local bound by `if let Some(x) = m.get_mut(&k)` -> (map place, key term, cmp term)
         FnTr3.__init__(self, world, file, impl, trait, name, it, lean, lit_choice, group)
         self.body_parser = Parser4(self.body_parser.t, self.body_parser.i)
         for x in self.idents:
@@ -569,11 +646,19 @@ class FnTr4(FnTr3):
                 walk(x.tail, d)
                 return
             if k == "assign":
-                hit(self.mutated_root(x.lhs), declared)
+                root = self.mutated_root(x.lhs)
+                hit(root, declared)
+                if root in self.maprefs:
+                    # an assignment through `m.get_mut(&k)` writes the map
+                    mpl = self.maprefs[root][0]
+                    hit("self" if mpl[0] == "field" else mpl[1], declared)
                 lhs = strip(x.lhs)
                 if lhs.kind == "index":
                     walk(lhs.idx, declared)
                 walk(x.rhs, declared)
+                return
+            if k == "map_get":
+                hit(x.root, declared)
                 return
             if k == "mcall":
                 if x.name in R2.MUT_METHODS or x.name in ("get_mut",):
@@ -643,6 +728,223 @@ class FnTr4(FnTr3):
             if self.lookup(v) is None:
                 raise Unsupported("assignment to unknown variable `%s`" % v)
         return out
+
+    def mutated_root(self, e):
+        e = strip(e)
+        if e.kind == "mcall" and e.name in ("as_mut", "unwrap") and not e.args:
+            return self.mutated_root(e.recv)        # `opt.as_mut().unwrap()`: the place inside the Option
+        return FnTr3.mutated_root(self, e)
+
+    # -- expressions
+    def ex0(self, e, want):
+        if e.kind == "res_as_opt":
+            # the scrutinee of `match r { Ok(p) => .., Err(_) => .. }`: the error value is dropped
+            ls, t, ty = self.ex(e.e)
+            if ty is None or ty[0] != "res":
+                raise Unsupported("`match` on Ok / Err of %s" % tystr4(ty))
+            r = self.fresh()
+            return ls + ["let %s ← Rs.resOpt %s" % (r, self.atom(t))], r, ("opt", ty[1])
+        if e.kind == "map_get":
+            # the scrutinee of `if let Some(x) = m.get_mut(&k)`: the current value at the key
+            return [], "(Rs.mapGet %s %s %s)" % (e.cmp, e.map, e.key), ("opt", e.vty)
+        return FnTr3.ex0(self, e, want)
+
+    def hole_found(self, holder_ty, arg, want_tuple=None):
+        """`holder_ty` has a hole that the type of the expression `arg` fills: restart the translation"""
+        ls, t, ty = self.ex(arg, None)
+        ty = self.default_flex(ty)
+        if not self.concrete(ty):
+            raise Unsupported("the element type of a container could not be inferred")
+        raise FoundHole(holder_ty[1], ty)
+
+    def key_arg(self, a, kty):
+        """the key argument of `contains` / `get_mut` / `insert` … -> (lines, atom)"""
+        if kty[0] == "hole":
+            self.hole_found(kty, a)
+        ls, t, _ = self.ex(a, kty)
+        return ls, self.atom(t)
+
+    def ex_bin(self, e, want):
+        if e.op in ("<", "<=", ">", ">="):
+            lt_, rt_ = self.peek_type(e.l), self.peek_type(e.r)
+            if lt_ == STR and rt_ == STR:
+                ll, a, _ = self.ex(e.l, STR)
+                rl, b, _ = self.ex(e.r, STR)
+                rel = {"<": "= Ordering.lt", ">": "= Ordering.gt", "<=": "≠ Ordering.gt", ">=": "≠ Ordering.lt"}[e.op]
+                return ll + rl, "(decide (Rs.cmpBytes %s %s %s))" % (self.atom(a), self.atom(b), rel), ("bool",)
+        return FnTr3.ex_bin(self, e, want)
+
+    def ex_call(self, e, want):
+        f = e.f
+        if f.kind == "path":
+            segs, args = f.segs, e.args
+            last2 = segs[-2:] if len(segs) >= 2 else None
+            if last2 == ["BTreeSet", "new"] and not args and want is not None and want[0] == "bset":
+                return [], "(Rs.setNew : %s)" % self.lt(want), want
+            if last2 == ["BTreeMap", "new"] and not args and want is not None and want[0] == "btree" and want[1] != STR:
+                return [], "(Rs.mapNew : %s)" % self.lt(want), want
+            if last2 in (["Vec", "with_capacity"], ["VecDeque", "with_capacity"]) and len(args) == 1:
+                kind = "vec" if last2[0] == "Vec" else "deque"
+                el = want[1] if (want is not None and want[0] == kind) else None
+                if el is not None and el[0] == "tuple" and self.concrete(el):
+                    ls, t, _ = self.ex(args[0], ("int", "usize"))
+                    ls, r = self.call_res(ls, "Rs.vecWithCapacity %s %d %s" % (self.lt(el), size_align4(el, self.w)[0], self.atom(t)))
+                    return ls, r, (kind, el)
+        return FnTr3.ex_call(self, e, want)
+
+    def ex_mcall(self, e, want):
+        name, args, recv = e.name, e.args, e.recv
+        while recv.kind == "paren":
+            recv = recv.e
+        if name == "clone" and not args:
+            rty = self.peek_type(recv)
+            if rty is not None and (rty[0] in ("named", "tuple", "str") or is_bytes(rty)):
+                return self.ex(recv, want)           # values are immutable here: a clone is the value
+        if name in ("contains", "contains_key") and len(args) == 1:
+            rty = self.peek_type(recv)
+            if rty is not None and ((rty[0] == "bset" and name == "contains") or (rty[0] == "btree" and name == "contains_key" and rty[1] != STR)):
+                ls, t, _ = self.ex(recv)
+                kl, k = self.key_arg(args[0], rty[1])
+                fn = "Rs.setContains" if rty[0] == "bset" else "Rs.mapContains"
+                return ls + kl, "(%s %s %s %s)" % (fn, cmp_term4(rty[1], self.w), self.atom(t), k), ("bool",)
+        if name == "pop_front" and not args and recv.kind == "mcall" and recv.name == "unwrap" and not recv.args \
+                and recv.recv.kind == "mcall" and recv.recv.name == "as_mut" and not recv.recv.args:
+            # `<place>.as_mut().unwrap().pop_front()` on an `Option<VecDeque<T>>` place
+            pl = self.place_of(recv.recv.recv)
+            ty = pl[2]
+            if ty[0] != "opt" or ty[1][0] != "deque":
+                raise Unsupported("`.as_mut().unwrap().pop_front()` on %s" % tystr4(ty))
+            q, x, rest = self.fresh(), self.fresh(), self.fresh()
+            ls = ["let %s ← Ctl.ofRes (Rs.unwrap %s)" % (q, self.place_term(pl)),
+                  "let (%s, %s) := Rs.popFrontOpt %s" % (x, rest, q)]
+            return ls + self.place_store(pl, "(some %s)" % rest), x, ("opt", ty[1][1])
+        return FnTr3.ex_mcall(self, e, want)
+
+    # -- statements: untyped containers, set / map updates, assignment through `get_mut`
+    CONTAINER_NEW = {("BTreeSet", "new"): "bset", ("BTreeMap", "new"): "btree", ("VecDeque", "with_capacity"): "deque",
+                     ("VecDeque", "new"): "deque"}
+
+    def tr_stmt(self, s):
+        if s.kind == "let" and s.ty is None and s.pat.kind == "p_path" and len(s.pat.path) == 1 and s.init is not None \
+                and s.init.kind == "call" and s.init.f.kind == "path" and len(s.init.f.segs) >= 2 \
+                and tuple(s.init.f.segs[-2:]) in self.CONTAINER_NEW:
+            kind = self.CONTAINER_NEW[tuple(s.init.f.segs[-2:])]
+            site = self.hole_sites
+            self.hole_sites += 2 if kind == "btree" else 1
+
+            def slot(i):
+                return self.holes.get(i, ("hole", i))
+            ty = ("btree", slot(site), slot(site + 1)) if kind == "btree" else (kind, slot(site))
+            x = s.pat.path[0]
+            if self.concrete(ty):
+                ls, t, ty2 = self.ex(s.init, ty)
+                self.bind(x, ty2)
+                return ls + ["let %s := %s" % (lname(x), t)], False
+            for i in ([site, site + 1] if kind == "btree" else [site]):
+                if i not in self.holes:
+                    self.open_holes.add(i)
+            self.bind(x, ty)
+            return ["let %s := _" % lname(x)], False
+        return FnTr3.tr_stmt(self, s)
+
+    def tr_mutcall(self, e):
+        pl = self.place_of(e.recv)
+        ty, name, args = pl[2], e.name, e.args
+        cur = self.place_term(pl)
+        if name == "push_back" and len(args) == 1 and ty[0] == "deque" and ty[1][0] == "hole":
+            self.hole_found(ty[1], args[0])
+        if name == "insert" and len(args) == 1 and ty[0] == "bset":
+            kl, k = self.key_arg(args[0], ty[1])
+            return kl + self.place_store(pl, "(Rs.setInsert %s %s %s)" % (cmp_term4(ty[1], self.w), cur, k))
+        if name == "insert" and len(args) == 2 and ty[0] == "btree" and ty[1] != STR:
+            kl, k = self.key_arg(args[0], ty[1])
+            if ty[2][0] == "hole":
+                self.hole_found(ty[2], args[1])
+            vl, v, _ = self.ex(args[1], ty[2])
+            return kl + vl + self.place_store(pl, "(Rs.mapInsert %s %s %s %s)" % (cmp_term4(ty[1], self.w), cur, k, self.atom(v)))
+        return FnTr3.tr_mutcall(self, e)
+
+    def tr_assign(self, e):
+        lines = FnTr3.tr_assign(self, e)
+        root = strip(e.lhs)
+        if root.kind == "path" and len(root.segs) == 1 and root.segs[0] in self.maprefs:
+            mpl, key, cmp = self.maprefs[root.segs[0]]
+            lines = lines + self.place_store(mpl, "(Rs.mapInsert %s %s %s %s)" % (cmp, self.place_term(mpl), key, lname(root.segs[0])))
+        return lines
+
+    # -- `if let Some(x) = m.get_mut(&k) { .. } else { .. }`: `x` aliases the entry of `m` at `k`; every
+    # assignment through it is written to the map at once (`tr_assign`)
+    def ctl(self, e, mode, want):
+        if e.kind == "iflet":
+            sc = e.scrut
+            while sc.kind == "paren":
+                sc = sc.e
+            if sc.kind == "mcall" and sc.name == "get_mut" and len(sc.args) == 1:
+                mpl = self.place_of(sc.recv)
+                mty = mpl[2]
+                if mty[0] != "btree" or mty[1] == STR:
+                    raise Unsupported("`.get_mut()` on %s" % tystr4(mty))
+                if not (e.pat.kind == "p_ctor" and e.pat.path == ["Some"] and len(e.pat.args) == 1
+                        and e.pat.args[0].kind == "p_path" and len(e.pat.args[0].path) == 1):
+                    raise Unsupported("`if let` on `.get_mut()` is limited to `Some(x)`")
+                x = e.pat.args[0].path[0]
+                kl, k = self.key_arg(sc.args[0], mty[1])
+                if mty[2][0] == "hole":
+                    # the value type is fixed by an `insert` of the other branch: look there first
+                    if e.els is not None:
+                        save = (self.tmp, len(self.aux_defs), getattr(self, "loop_count", 0), self.lit_sites)
+                        try:
+                            self.tr_block(e.els, "value", None)
+                        except Unsupported:
+                            pass
+                        finally:
+                            self.tmp, n, self.loop_count, self.lit_sites = save
+                            del self.aux_defs[n:]
+                    raise Unsupported("the value type of a map could not be inferred")
+                kv = self.fresh()
+                pre = kl + ["let %s := %s" % (kv, k)]
+                cmp = cmp_term4(mty[1], self.w)
+                if x in self.maprefs:
+                    raise Unsupported("nested `get_mut` bindings of the same name")
+                self.maprefs[x] = (mpl, kv, cmp)
+                try:
+                    e2 = N("iflet", pat=e.pat, scrut=N("map_get", cmp=cmp, map=self.place_term(mpl), key=kv, vty=mty[2],
+                                                       root=("self" if mpl[0] == "field" else mpl[1])),
+                           then=e.then, els=e.els)
+                    ls, term, ty, div = FnTr3.ctl(self, e2, mode, want)
+                finally:
+                    del self.maprefs[x]
+                return pre + ls, term, ty, div
+        return FnTr3.ctl(self, e, mode, want)
+
+    # -- `match <call returning Result> { Ok(p) => .., Err(_) => .. }` (the call has no `&mut` parameters)
+    def ctl_match(self, e, mode, want, M):
+        scrut = e.scrut
+        while scrut.kind == "paren":
+            scrut = scrut.e
+        if scrut.kind in ("call", "mcall") and len(e.arms) == 2 and all(a.guard is None for a in e.arms):
+            kinds = []
+            for a in e.arms:
+                p = a.pat
+                if p.kind == "p_ctor" and p.path == ["Ok"] and len(p.args) == 1:
+                    kinds.append("ok")
+                elif p.kind == "p_ctor" and p.path == ["Err"] and len(p.args) == 1 and p.args[0].kind == "p_wild":
+                    kinds.append("err")
+                else:
+                    kinds.append(None)
+            if sorted(k or "" for k in kinds) == ["err", "ok"]:
+                sig = self.callee_sig(scrut)
+                if sig is None or sig["ret"][0] != "res" or sig.get("mut") or sig.get("writer") or sig.get("fuel"):
+                    raise Unsupported("`match` on the Result of a call that is not a translated function without `&mut` parameters")
+                arms = []
+                for a, k in zip(e.arms, kinds):
+                    if k == "ok":
+                        pat = N("p_ctor", path=["Some"], args=a.pat.args)
+                    else:
+                        pat = N("p_path", path=["None"])
+                    arms.append(N("arm", pat=pat, guard=None, body=a.body))
+                e = N("match", scrut=N("res_as_opt", e=scrut), arms=arms)
+        return FnTr3.ctl_match(self, e, mode, want, M)
 
     # -- loops
     def tr_loop(self, e):
@@ -759,6 +1061,12 @@ class FnTr4(FnTr3):
                 and c.e.f.segs == ["is_jsonb"] and len(c.e.args) == 1)
 
     def translate(self):
+        r = self.translate0()
+        if self.open_holes:
+            raise Unsupported("the element type of a container could not be inferred")
+        return r
+
+    def translate0(self):
         if self.name not in TEXT_PROLOGUE:
             return FnTr3.translate(self)
         # FnTr3.translate with the text parameter of phase 2: the parameter holds the `Res` of the text branch
@@ -906,6 +1214,9 @@ def generate(repo, prev_text):
         if kind == "typegroup":
             key = "%s::types %s" % (file, ", ".join(n for _, n in name))
             lines = guarded(key, lambda: emit_typegroup4(world, file, name))
+        elif kind == "derive_ord":
+            key = "%s::derive(Ord) for %s" % (file, name)
+            lines = guarded(key, lambda: emit_derive_ord4(world, file, name))
         else:
             key = "%s::%s %s" % (file, kind, name)
             lines = guarded(key, lambda: emit_struct4(world, file, name))
